@@ -248,7 +248,7 @@ def trace_class(repo, cname):
             t.sins[cy[j].txt] = f"sp{j + 1}"; sym[f"sp{j + 1}"] = math.sin(cy[j].v)
     geom_conds = list(t.conds); t.conds.clear()
     # swap the sparse constructor in the modules that build matrices
-    mods = [importlib.import_module("pyfvtool." + m) for m in ("diffusion", "advection", "source", "boundary", "calculus", "averaging")]
+    mods = [importlib.import_module("pyfvtool." + m) for m in ("diffusion", "advection", "source", "boundary", "calculus", "averaging", "pdesolver")]
     saved = [(m, getattr(m, "csr_array", None)) for m in mods]
     for m, old in saved:
         if old is not None:
@@ -612,6 +612,19 @@ def emit(tr):
             for c in sorted(cols):
                 v = byrow.get(r, {}).get(c)
                 lemma(f"{tag}_{r}_{c}", v.txt if v is not None else "k0 F", f"coef_at F ({model_row} {r}) {c}")
+    xs = []
+    if tr.get("solveM"):
+        xs = []
+        for k in range(ncell):
+            idx = [int(q) for q in np.unravel_index(k, pshape)]
+            xs.append("xs_" + "_".join(map(str, idx)))
+        w("Variables " + " ".join(xs) + " : T.")
+        rows = [f"  | {cell_of([int(q) for q in np.unravel_index(k, pshape)], d)} => {xs[k]}" for k in range(ncell)]
+        w("Definition tx : cvar F := fun c => match c with\n" + "\n".join(rows) + "\n  | _ => k0 F end.")
+        w("Definition tts : list (term F) := [TDiff F (kopp F (k1 F)) tD; TCen F sc tu; TLin F (k1 F) tal; TConst F (k1 F) tp; TTrans F tal dt tp; "
+          "TVec F (k1 F) (interior_or_zero F tm (divergence F tm tu))].")
+    if tr.get("explicit"):
+        cvar_def("trh", "rh")
     w("(*CHUNK*)")
     matrix_lemmas("diffusion", tr["diffusion"], "stencil_row F tm (diffAW F tm tD) (diffAP F tm tD) (diffAE F tm tD)")
     w("(*CHUNK*)")
@@ -682,19 +695,21 @@ def emit(tr):
     face_vals("linmean", tr["linmean"], "linmean F tm tp")
     face_vals("arithmean", tr["arithmean"], "arithmean F tm tp")
     if tr.get("solveM"):
-        w("(*CHUNK*)")
-        xs = []
-        for k in range(ncell):
-            idx = [int(q) for q in np.unravel_index(k, pshape)]
-            xs.append("xs_" + "_".join(map(str, idx)))
-        w("Variables " + " ".join(xs) + " : T.")
-        rows = [f"  | {cell_of([int(q) for q in np.unravel_index(k, pshape)], d)} => {xs[k]}" for k in range(ncell)]
-        w("Definition tx : cvar F := fun c => match c with\n" + "\n".join(rows) + "\n  | _ => k0 F end.")
-        w("Definition tts : list (term F) := [TDiff F (kopp F (k1 F)) tD; TCen F sc tu; TLin F (k1 F) tal; TConst F (k1 F) tp; TTrans F tal dt tp; "
-          "TVec F (k1 F) (interior_or_zero F tm (divergence F tm tu))].")
+        # the second call with the same list object: if every captured entry is textually the expression of the first call, the lemmas
+        # of the first call cover it; otherwise it gets its own lemmas (and they fail if the second system is a different one)
+        def same_capture(k):
+            A, B = tr["solveM"][0], tr["solveM"][k]
+            return (set(A) == set(B) and all(A[e].txt == B[e].txt for e in A)
+                    and [x_.txt for x_ in tr["solveR"][0]] == [x_.txt for x_ in tr["solveR"][k]])
+        reps = [0] + [k for k in range(1, len(tr["solveM"])) if not same_capture(k)]
+        w(f"(* solvePDE was called {len(tr['solveM'])} times with one term list; calls whose captured system differs textually from the first: {reps[1:]} *)")
         for rep, (Ms, Rs) in enumerate(zip(tr["solveM"], tr["solveR"])):
+            if rep not in reps:
+                continue
             byrow = rows_of(Ms)
             for r in range(ncell):
+                if r % 8 == 0:
+                    w("(*CHUNK*)")
                 idx = [int(q) for q in np.unravel_index(r, pshape)]
                 nghost = sum(1 for b in range(d) if idx[b] == 0 or idx[b] == Ns[b] + 1)
                 if nghost >= 2 and d == 2:
@@ -711,7 +726,6 @@ def emit(tr):
                     lemma(f"solveR{rep}_{r}", Rs[r].txt, f"bc_rhs F tm tbc {cell_of(idx, d)}")
     if tr.get("explicit"):
         w("(*CHUNK*)")
-        cvar_def("trh", "rh")
         for r in range(ncell):
             idx = [int(q) for q in np.unravel_index(r, pshape)]
             if sum(1 for b in range(d) if idx[b] == 0 or idx[b] == Ns[b] + 1) >= 2:
